@@ -31,7 +31,9 @@ EXTRA_BUILD = ['Gen']
 GEN_IMPORTS = ['Gen.Equiv']
 GEN_THEOREMS = ['Vakt.GenEquiv.gen_' + n for n in (
     'Eq', 'NotEq', 'Greater', 'Less', 'GreaterOrEqual', 'LessOrEqual', 'In', 'NotIn', 'AllIn', 'AllNotIn', 'AnyIn', 'AnyNotIn',
-    'Truthy', 'Falsy', 'Any', 'Neither', 'Equal', 'StartsWith', 'EndsWith', 'Contains')] + ['Vakt.GenEquiv.translated_covers']
+    'Truthy', 'Falsy', 'And', 'Or', 'Not', 'Any', 'Neither', 'Equal', 'PairsEqual', 'StartsWith', 'EndsWith', 'Contains',
+    'SubjectEqual', 'ActionEqual', 'ResourceIn', 'SubjectMatch', 'ActionMatch', 'ResourceMatch')] + \
+    ['Vakt.GenEquiv.translated_covers']
 FLOOR = {'quick': 500, 'thorough': 5000}
 ASSUMPTIONS = [
     'RegexMatch outside the modelled regex subset, str() of float/list/dict, non-str CIDR arguments, '
